@@ -1,0 +1,39 @@
+//go:build verif
+
+package vm
+
+import "sync/atomic"
+
+// Read-only accessors used by the runtime monitors in /verif. They are only
+// compiled with the "verif" build tag and do not change any VM state.
+
+// VerifSP returns the operand stack pointer (index of the top slot, -1 when empty).
+func (vm *VirtualMachine) VerifSP() int { return vm.sp }
+
+// VerifFP returns the index of the active call frame.
+func (vm *VirtualMachine) VerifFP() int { return vm.fp }
+
+// VerifFrameBaseSP returns the stack pointer that the active frame restores
+// when it returns, i.e. the operand stack depth at which the frame started.
+func (vm *VirtualMachine) VerifFrameBaseSP() int {
+	if vm.activeFrame == nil {
+		return -1
+	}
+	if vm.fp == 0 {
+		return -1
+	}
+	return vm.activeFrame.returnSp
+}
+
+// VerifHalt reports whether the halt flag of the current run is set.
+func (vm *VirtualMachine) VerifHalt() bool {
+	halt := vm.halt
+	return halt != nil && atomic.LoadInt32(halt) == 1
+}
+
+// VerifRunning reports whether the VM considers itself running.
+func (vm *VirtualMachine) VerifRunning() bool {
+	vm.runMutex.Lock()
+	defer vm.runMutex.Unlock()
+	return vm.running
+}
